@@ -267,7 +267,12 @@ impl Dictionary {
         }
         self.data.connector.map_connection_ids(&mapper);
         self.data.unk_handler.map_connection_ids(&mapper);
-        self.data.mapper = Some(mapper);
+        // The stored mapper translates the original ids of user lexicons loaded later,
+        // so it must be the composition of all mappings applied so far.
+        self.data.mapper = Some(match self.data.mapper.take() {
+            Some(prev) => prev.compose(&mapper),
+            None => mapper,
+        });
         Ok(self)
     }
 }
